@@ -15,7 +15,7 @@ pub trait InstructionProperties {
 
     fn is_ureturn(&self) -> bool;
 
-    fn stores_to_memory(&self) -> Option<(Register, (Register, Imm))>;
+    fn stores_to_memory(&self) -> Option<(Register, (Register, Imm), u8)>;
 
     fn reads_from_memory(&self) -> Option<((Register, Imm), Register)>;
 
